@@ -12,6 +12,7 @@ from ..engine import emit, cfg as cfgmod
 from ..engine.facts import dotted, const, src, walk_func, enclosing_stmt
 from . import skeletons as sk
 from . import c05  # def-emitter-siblings is registered for C17 there
+from . import c08  # identity-key is registered for C17 there
 from .common import calls, stmt_nodes
 
 
